@@ -13,7 +13,8 @@ seg = {
   "objs":   [ {"p": path, "has": bool, "n": int, "ty": type name or None,
                optional "daqmx": {...}} ],                      # effective explicit list -> raw data layout
   "k": number of chunks,
-  optional: "version", "marker" (next-segment offset 0xFFFF...), "rawflag", "drop" (bytes cut from raw data end)
+  optional: "version", "marker" (next-segment offset 0xFFFF...), "rawflag", "drop" (bytes cut from raw data end),
+            "metapad" (padding bytes after the metadata, counted in the raw data offset)
 }
 
 A value of a channel is its little-endian byte string (strings: python str); the k-th value of channel p
@@ -308,6 +309,10 @@ def encode(fd, seed=0, typemap=None):
                 meta += _u32(len(props), be)
                 for (name, pty, val) in props:
                     meta += encode_prop(name, pty, val, be)
+        # "metapad": bytes between the end of the metadata and the raw data offset (LabVIEW pads metadata; what lies
+        # there is unspecified, so it is filled with non-zero bytes).  The index file repeats it.
+        if seg.get("meta", True) and seg.get("metapad"):
+            meta += bytes((0xA5 + 17 * j) % 251 + 1 for j in range(seg["metapad"]))
         drop = seg.get("drop", 0)
         if drop:
             raw = raw[:len(raw) - drop]
